@@ -49,6 +49,7 @@ func c18Frames(tag string) map[string][]byte {
 		"delete":   sber.Message(5, sber.DelRequest([]byte(tag)), nil).Encode(),
 		"extended": sber.Message(6, sber.ExtendedRequest([]byte("1.6.6.6"), nil, false), nil).Encode(),
 		"unbind":   sber.Message(7, sber.UnbindRequest(), nil).Encode(),
+		"starttls": sber.Message(8, sber.ExtendedRequest([]byte(sber.OIDStartTLS), nil, false), nil).Encode(),
 	}
 }
 
@@ -177,6 +178,13 @@ func c18Behaviours(mtls bool, pki *PKI, postOp string) []c18Behaviour {
 		}
 		out = append(out,
 			c18Behaviour{"tls12-no-certificate", postOp, c18TLSThenBind(noCert(tls.VersionTLS12, tls.VersionTLS12), postOp)},
+			// ... and followed by the operations a server treats specially (served on the read loop): Unbind, StartTLS
+			c18Behaviour{"tls12-no-certificate-then-unbind", "unbind", c18TLSThenBind(noCert(tls.VersionTLS12, tls.VersionTLS12), "unbind")},
+			c18Behaviour{"tls13-no-certificate-then-unbind", "unbind", c18TLSThenBind(noCert(tls.VersionTLS13, tls.VersionTLS13), "unbind")},
+			c18Behaviour{"tls12-no-certificate-then-starttls", "starttls", c18TLSThenBind(noCert(tls.VersionTLS12, tls.VersionTLS12), "starttls")},
+			c18Behaviour{"tls13-no-certificate-then-starttls", "starttls", c18TLSThenBind(noCert(tls.VersionTLS13, tls.VersionTLS13), "starttls")},
+			c18Behaviour{"tls13-no-certificate-then-search", "search", c18TLSThenBind(noCert(tls.VersionTLS13, tls.VersionTLS13), "search")},
+			c18Behaviour{"foreign-ca-certificate-then-unbind", "unbind", c18TLSThenBind(with(pki.ForeignCli), "unbind")},
 			c18Behaviour{"tls13-no-certificate", postOp, c18TLSThenBind(noCert(tls.VersionTLS13, tls.VersionTLS13), postOp)},
 			c18Behaviour{"foreign-ca-certificate", postOp, c18TLSThenBind(with(pki.ForeignCli), postOp)},
 			c18Behaviour{"expired-certificate", postOp, c18TLSThenBind(with(pki.ExpiredCli), postOp)},
@@ -268,7 +276,7 @@ func c18SessionAcrossServers(c *Ctx) {
 func c18Run(c *Ctx) {
 	c18SessionAcrossServers(c)
 	pki := newPKI()
-	for _, cfgName := range []string{"server-auth-only", "client-cert-required", "server-auth-only-certificate-from-callback", "client-cert-required-config-from-callback", "client-cert-required-while-NewServer-was-given-another-config"} {
+	for _, cfgName := range []string{"server-auth-only", "client-cert-required", "server-auth-only-certificate-from-callback", "client-cert-required-config-from-callback", "client-cert-required-while-NewServer-was-given-another-config", "server-auth-only-run-on-localhost", "client-cert-required-run-on-localhost"} {
 		mtls := strings.HasPrefix(cfgName, "client-cert-required")
 		stc, ctc := pki.ServerOnly, pki.ClientPlain
 		if mtls {
@@ -287,7 +295,16 @@ func c18Run(c *Ctx) {
 			ctorTLS = pki.ServerOnly // Run is given the configuration that requires client certificates
 		}
 		rc := &Recorder{}
-		srv, err := startSrv(SrvCfg{TLS: stc, CtorTLS: ctorTLS}, func(m *gldap.Mux) { rc.RegisterAll(m, nil) })
+		runAddr := ""
+		var otherLoopback string
+		if strings.HasSuffix(cfgName, "run-on-localhost") {
+			// Run is given the NAME localhost: whatever addresses the server ends up listening on for it, every one of
+			// them is the TLS port (offenders also try the loopback address of the other family)
+			p := freePort()
+			runAddr = fmt.Sprintf("localhost:%d", p)
+			otherLoopback = fmt.Sprintf("[::1]:%d", p)
+		}
+		srv, err := startSrv(SrvCfg{TLS: stc, CtorTLS: ctorTLS, Addr: runAddr}, func(m *gldap.Mux) { rc.RegisterAll(m, nil) })
 		if err != nil {
 			c.Inconclusive("server start: " + err.Error())
 			return
@@ -338,7 +355,11 @@ func c18Run(c *Ctx) {
 				go func() {
 					defer owg.Done()
 					defer func() { <-sem }()
-					inflight := bh.Run(srv.Addr, tag, pki)
+					target := srv.Addr
+					if otherLoopback != "" {
+						target = []string{fmt.Sprintf("127.0.0.1:%s", srv.Addr[strings.LastIndexByte(srv.Addr, ':')+1:]), otherLoopback}[int(c18Tag.Load())%2]
+					}
+					inflight := bh.Run(target, tag, pki)
 					c.Count("offending_connections", 1)
 					c.Distinct("behaviours", cfgName+"/"+bh.Name)
 					if bh.Name == "tls13-no-certificate" && inflight {
